@@ -78,6 +78,10 @@ class Env:
         return Env(self.conf, self.prov, self.contrib)
 
 
+def _ptxt(u) -> str:
+    return u.text if hasattr(u, "text") and not isinstance(u, ast.expr) else txt(u)
+
+
 def join_env(a: Optional[Env], b: Optional[Env]) -> Optional[Env]:
     if a is None:
         return b
@@ -92,7 +96,7 @@ def join_env(a: Optional[Env], b: Optional[Env]) -> Optional[Env]:
             e.conf[k] = a.conf.get(k, b.conf.get(k))
         # refinements of compound expressions present in one branch only are dropped (sound)
     for k in a.prov:
-        if k in b.prov and b.prov[k][0] == a.prov[k][0] and txt(b.prov[k][1]) == txt(a.prov[k][1]):
+        if k in b.prov and b.prov[k][0] == a.prov[k][0] and _ptxt(b.prov[k][1]) == _ptxt(a.prov[k][1]):
             e.prov[k] = a.prov[k]
     for k in set(a.contrib) | set(b.contrib):
         seen = set()
@@ -103,6 +107,15 @@ def join_env(a: Optional[Env], b: Optional[Env]) -> Optional[Env]:
                 out.append(item)
         e.contrib[k] = out
     return e
+
+
+class _Pre(ast.AST):
+    """a precomputed confinement handed into an inlined helper (stands for the caller's expression U of a carrier hit)"""
+    _fields = ()
+
+    def __init__(self, conf, text):
+        self.conf = conf
+        self.text = text
 
 
 class FnResult:
@@ -166,6 +179,46 @@ class Confinement:
         self.helper_sum[name] = FS(fi.params) if c == TOP else FS(c)
         self.helper_out[name] = dict(r.out_contrib)
         return self.helper_sum[name]
+
+    def inline_helper(self, h: FunctionInfo, call: ast.Call, env: Env, fi):
+        """context-sensitive evaluation of a private helper at this call site: its body is analysed with the parameters
+        bound to the confinements (and carrier-hit provenance) of the actual arguments; -> meet of the confinements of
+        its returns, in the caller's operand names (None: not inlinable here)"""
+        stack = getattr(self, "_inline_stack", [])
+        if h.name in stack or len(stack) >= 3 or len(call.args) != len(h.params) or call.keywords \
+                or any(isinstance(a, ast.Starred) for a in call.args) or h.is_generator:
+            return None
+        cenv = Env()
+        for p_, a in zip(h.params, call.args):
+            cenv.conf[p_] = self.selfconf(a, env, fi)
+        # provenance: a parameter that receives  I = intersection(U, X.carrier)  (directly or through a local)
+        for p_, a in zip(h.params, call.args):
+            pv = env.prov.get(a.id) if isinstance(a, ast.Name) else self.carrier_prov(a)
+            if pv is None:
+                continue
+            X, U, C = pv
+            xs = [q for q, b in zip(h.params, call.args) if isinstance(b, ast.Name) and b.id == X]
+            if xs:
+                uconf = U.conf if isinstance(U, _Pre) else self.selfconf(U, env, fi)
+                cenv.prov[p_] = (xs[0], _Pre(uconf, _ptxt(U)), C)
+        saved = (self.cur, self.params)
+        self._inline_stack = stack + [h.name]
+        sub = FnResult(h)
+        self.cur, self.params = sub, ()
+        try:
+            self.block(h.node.body, cenv, h)
+        finally:
+            self.cur, self.params = saved
+            self._inline_stack = stack
+        self.cur.kernel_sites += sub.kernel_sites
+        self.cur.numeric_sites += sub.numeric_sites
+        self.cur.guards |= sub.guards
+        if not sub.returns:
+            return None
+        c = TOP
+        for ret in sub.returns:
+            c = meet(c, ret["conf"])
+        return c
 
     @staticmethod
     def returns_own_container(h) -> Optional[str]:
@@ -247,7 +300,8 @@ class Confinement:
                     for a in e.args:
                         c = meet(c, self.ev(a, env, fi))
                     return c
-                if n in ("list", "tuple", "sorted", "frozenset"):
+                if n in ("list", "tuple", "sorted", "frozenset", "iter", "next", "reversed"):
+                    # next(iter(X)) / list(X): elements of X
                     return self.ev(e.args[0], env, fi) if e.args else TOP
                 if n == "set":
                     return TOP if not e.args else self.ev(e.args[0], env, fi)
@@ -271,6 +325,10 @@ class Confinement:
                     for p, a in zip(h.params, e.args):
                         if p in hs:
                             c = cup(c, self.selfconf(a, env, fi))
+                    if n.startswith("_"):
+                        ci = self.inline_helper(h, e, env, fi)
+                        if ci is not None:
+                            c = ci if ci == TOP else (cup(c, ci) if c != TOP else ci)
                     return c
                 if n in ("Point", "Line", "Plane", "HalfLine"):
                     # a numeric construction
@@ -361,7 +419,8 @@ class Confinement:
             pv = env.prov.get(v)
             if pv is not None and tys == [pv[2]]:
                 X, U, _ = pv
-                self.refine(env, ast.Name(id=X, ctx=ast.Load()), self.selfconf(U, env, fi), "G3", fi)
+                uconf = U.conf if isinstance(U, _Pre) else self.selfconf(U, env, fi)
+                self.refine(env, ast.Name(id=X, ctx=ast.Load()), uconf, "G3", fi)
         return env
 
     @staticmethod
@@ -624,7 +683,7 @@ class Confinement:
 
     def _contribs(self, e, env: Env):
         """contribution list of the container an expression is derived from"""
-        while isinstance(e, ast.Call) and isinstance(e.func, ast.Name) and e.func.id in ("list", "tuple", "sorted") and e.args:
+        while isinstance(e, ast.Call) and isinstance(e.func, ast.Name) and e.func.id in ("list", "tuple", "sorted", "iter", "next") and e.args:
             e = e.args[0]
         while isinstance(e, ast.Subscript):
             e = e.value
@@ -676,7 +735,14 @@ def handler_functions(ctx) -> Tuple[List[FunctionInfo], List[FunctionInfo], Func
     repo = ctx.repo
     m = repo.module("calc.intersection")
     inter = repo.fn("intersection", "calc.intersection")
-    handlers = [f for f in m.functions.values() if f is not inter and len(f.params) == 2]
+    try:
+        from .rules.c01 import handler_bindings_all
+        bound = set(handler_bindings_all(ctx))
+    except AnalysisError:
+        bound = set()
+    # a private two-parameter function that no dispatch row is bound to is a helper (analysed where it is called)
+    handlers = [f for f in m.functions.values() if f is not inter and len(f.params) == 2
+                and (not f.name.startswith("_") or f.name in bound)]
     aux = repo.module("calc.aux_calc")
     helpers = [f for f in aux.functions.values() if f.name.endswith("_intersection_point_set")]
     return handlers, helpers, inter
